@@ -48,8 +48,12 @@ def B(x):
 def unit_parse(kind):
     def run(ctx):
         import txtorcon.torconfig as tc
-        cls = {'Boolean': tc.Boolean, 'Boolean_Auto_auto': tc.Boolean_Auto, 'Boolean_Auto_num': tc.Boolean_Auto, 'Integer': tc.Integer, 'LineList_list': tc.LineList}[kind]
-        ctx.fn(MODULE, cls.__name__ + '.parse')
+        cls = {'Boolean': tc.Boolean, 'Boolean_Auto_auto': tc.Boolean_Auto, 'Boolean_Auto_num': tc.Boolean_Auto, 'Integer': tc.Integer, 'LineList_list': tc.LineList,
+               'String': tc.String, 'Filename': tc.Filename}[kind]
+        try:
+            ctx.fn(MODULE, cls.__name__ + '.parse')
+        except KeyError:
+            ctx.fn(MODULE, 'TorConfigType.parse')      # (inherited)
         ex = ctx.ex
         path = ctx.new_path()
         inst = VConc(cls())
@@ -63,6 +67,8 @@ def unit_parse(kind):
             arg = VStr(s) if kind != 'Boolean_Auto_auto' else VStr('auto')
             if kind == 'Boolean_Auto_auto':
                 path.assume(s == mk_str('auto'))
+            elif kind in ('String', 'Filename'):
+                pass        # any text
             else:
                 path.assume(z3.InRe(s, z3.Plus(z3.Range('0', '9'))))
         ctx.cover('pre_satisfiable', path)
@@ -73,7 +79,10 @@ def unit_parse(kind):
                 ctx.oblige('no_exception_on_well_formed_value', p, B(False))
                 continue
             n = z3.StrToInt(s)
-            if kind == 'Boolean':
+            if kind in ('String', 'Filename'):
+                ctx.oblige('post.text_value_is_kept_exactly', p, r.t == s if isinstance(r, VStr) else B(False),
+                           clause='the value Tor returned parsed by the declared type (text types: the text itself)')
+            elif kind == 'Boolean':
                 ctx.oblige('post.boolean_is_int_nonzero', p, r.t == (n != 0) if isinstance(r, VBool) else B(False),
                            clause='the value Tor returned parsed by the declared type (booleans)')
             elif kind == 'Integer':
@@ -378,16 +387,132 @@ def unit_do_setup(tname, vkind):
     return run
 
 
+class DefaultsModels(T.ConfigModels):
+    """externals of TorConfig._get_defaults: GETINFO config/defaults through its contract (C13: the raw reply text, or the
+    TorProtocolError of a Tor without that key); the reply is 'config/defaults=' followed by one '<Name> <value>' line per entry"""
+    def method(self, ex, path, recv, name, args, kw):
+        if isinstance(recv, VOpaque) and recv.kind == 'proto' and name == 'get_info_raw':
+            self.glog_add(path, 'asked', args[0])
+            return [(path, VOpaque('d_defaults_raw', 1))]
+        return T.ConfigModels.method(self, ex, path, recv, name, args, kw)
+
+    def await_(self, ex, path, fr, v, node):
+        import txtorcon.torcontrolprotocol as tcp
+        self.assumptions.add('A3 inlineCallbacks: a yield resumes with the Deferred result or throws its failure into the generator')
+        pr = path.fork()
+        b = z3.Bool('tor_has_no_config_defaults')
+        pr.assume(b)
+        path.assume(z3.Not(b))
+        exc = ex.new_inst(pr, tcp.TorProtocolError)
+        pr.heap[('f', exc.oid, 'code')] = VInt(z3.IntVal(552))
+        pr.heap[('f', exc.oid, 'text')] = VStr('Unrecognized key "config/defaults"')
+        return [(path, VStr(z3.String('defaults_reply'))), (pr, Raise(exc))]
+
+    def split_hook(self, ex, path, s, args, kw):
+        lines = path.heap.get(('g', 'defaults_lines'))
+        if lines is not None and isinstance(s, VStr):
+            if len(args) == 1 and concrete_of(args[0]) == (True, '\n') and s.t.eq(z3.String('defaults_reply')):
+                return [(path, ex.new_list(path, [VStr('config/defaults=')] + [VStr(z3.Concat(k, mk_str(' '), v)) for k, v in lines]))]
+            for k, v in lines:
+                # '<Name> <value>'.split(' ', 1): the name has no blank, the value may
+                if len(args) == 2 and concrete_of(args[0]) == (True, ' ') and concrete_of(args[1]) == (True, 1) and s.t.eq(z3.Concat(k, mk_str(' '), v)):
+                    return [(path, ex.new_list(path, [VStr(k), VStr(v)]))]
+        return T.ConfigModels.split_hook(self, ex, path, s, args, kw)
+
+
+def unit_get_defaults(shape):
+    """shape: tuple of key indices, one per reply line, e.g. (0, 1) two options, (0, 0) one option listed twice"""
+    def run(ctx):
+        ctx.fn(MODULE, 'TorConfig._get_defaults')
+        import txtorcon.torconfig as tc
+        ex = ctx.ex
+        path = ctx.new_path()
+        cfg = ex.new_inst(path, tc.TorConfig)
+        path.heap[('f', cfg.oid, '_protocol')] = VOpaque('proto', 6100)
+        path.heap[('f', cfg.oid, 'protocol')] = VOpaque('proto', 6100)
+        keys = [z3.String('name%d' % i) for i in range(max(shape) + 1)]
+        for i, k in enumerate(keys):
+            ctx.input('name%d' % i, VStr(k))
+            path.assume(z3.Length(k) > 0)
+            path.assume(z3.Not(z3.Contains(k, mk_str(' '))))
+            for j in range(i):
+                path.assume(k != keys[j])
+        vals = [z3.String('value%d' % i) for i in range(len(shape))]
+        for i, v in enumerate(vals):
+            ctx.input('value%d' % i, VStr(v))
+        path.heap[('g', 'defaults_lines')] = tuple((keys[ki], vals[i]) for i, ki in enumerate(shape))
+        ctx.cover('pre_satisfiable', path)
+        ctx.cover('pre_value_with_option_words', path, z3.Contains(vals[0], mk_str(' ')))
+        g = ex.getattr_v(path, cfg, '_get_defaults')
+        n_ok = 0
+        for p, r in ex.call(g[0][0], g[0][1], [], {}):
+            if isinstance(r, Raise):
+                cname = r.exc.cls.__name__ if isinstance(r.exc, VInst) else '?'
+                ctx.oblige('no_exception[%s]' % cname, p, B(False))
+                continue
+            n_ok += 1
+            pairs = p.heap[('dict', r.did)] if isinstance(r, VDictLit) else None
+            if pairs is None:
+                ctx.oblige('post.returns_a_dict', p, B(False))
+                continue
+            refused = z3.Bool('tor_has_no_config_defaults')
+            want = []
+            for i, ki in enumerate(shape):
+                if ki not in [w[0] for w in want]:
+                    want.append((ki, [i]))
+                else:
+                    [w for w in want if w[0] == ki][0][1].append(i)
+            goals = [B(len(pairs) == len(want))]
+            for (ki, idxs), (k_, v_) in zip(want, pairs):
+                goals.append(k_.t == keys[ki] if isinstance(k_, VStr) else B(False))
+                if len(idxs) == 1:
+                    goals.append(v_.t == vals[idxs[0]] if isinstance(v_, VStr) else B(False))
+                else:
+                    items = ex.list_items(p, v_) if isinstance(v_, VList) else None
+                    goals.append(B(items is not None and len(items) == len(idxs)))
+                    if items is not None and len(items) == len(idxs):
+                        goals.extend(it.t == vals[i] if isinstance(it, VStr) else B(False) for it, i in zip(items, idxs))
+            ctx.oblige('post.every_default_is_recorded_with_its_whole_value_in_order', p,
+                       z3.If(refused, B(len(pairs) == 0), zand(*goals)),
+                       clause='unset options are reported as the default Tor gives for them (the whole value, option words included)')
+        if not n_ok:
+            ctx.oblige('some_normal_exit', path, B(False))
+    return run
+
+
+def unit_is_list_type():
+    def run(ctx):
+        ctx.fn(MODULE, 'is_list_config_type')
+        import txtorcon.torconfig as tc
+        from pyvc import extract
+        ex = ctx.ex
+        path = ctx.new_path()
+        mi, node = extract.find(MODULE, 'is_list_config_type')
+        f = VFunc(node, MODULE, 'is_list_config_type')
+        lists = ('LineList', 'CommaList', 'RouterList', 'TimeIntervalCommaList', 'HiddenServices')
+        ctx.cover('pre_satisfiable', path)
+        for cls in sorted(set(tc.config_types) | {tc.HiddenServices} if hasattr(tc, 'HiddenServices') else set(tc.config_types), key=lambda c: c.__name__):
+            for p, r in ex.call(path.fork(), f, [VConc(cls)], {}):
+                t = ex.truth_term(p, r) if not isinstance(r, Raise) else B(False)
+                ctx.oblige('post.list_valued_types_are_exactly_the_list_types[%s]' % cls.__name__, p, t == B(cls.__name__ in lists),
+                           clause='list-valued options are tracked lists (every list type: line, comma, router and interval lists)')
+    return run
+
+
 def make_models_for(unit_name):
+    if '_get_defaults' in unit_name:
+        return DefaultsModels()
     return SetupModels() if '_do_setup' in unit_name else make_models()
 
 
-def units():
-    out = [('C11/parse/%s' % k, unit_parse(k)) for k in ('Boolean', 'Boolean_Auto_auto', 'Integer', 'LineList_list')]
+def units(tier='quick'):
+    out = [('C11/parse/%s' % k, unit_parse(k)) for k in ('Boolean', 'Boolean_Auto_auto', 'Integer', 'LineList_list', 'String', 'Filename')]
     for tname in ('Integer', 'CommaList', 'LineList'):
         for vk in ('set', 'unset_default', 'unset_no_default'):
             out.append(('C11/_do_setup@%s/%s' % (tname, vk), unit_do_setup(tname, vk)))
     out += [('C11/_find_real_name/%s' % k, unit_find_real_name(k)) for k in ('first', 'second', 'none')]
+    out += [('C11/_get_defaults@%s' % '_'.join(map(str, sh)), unit_get_defaults(sh)) for sh in (((0,), (0, 1), (0, 0)) if tier == 'quick' else ((0,), (0, 1), (0, 0), (0, 1, 0), (0, 0, 0)))]
+    out.append(('C11/is_list_config_type', unit_is_list_type()))
     for is_list in (True, False):
         for rep in ('one', 'many', 'unset'):
             if not is_list and rep == 'many':
